@@ -84,10 +84,15 @@ pub fn check_compile(s: &str) -> Result<Info, Fail> {
     // the other entry points
     let r = catch_unwind(AssertUnwindSafe(|| {
         let _ = Expr::parse_tree(s).map(|t| format!("{:?}", t.expr).len());
-        let _ = RegexBuilder::new(s).delegate_size_limit(1).delegate_dfa_size_limit(1).backtrack_limit(0).case_insensitive(true).build();
+        RegexBuilder::new(s).delegate_size_limit(1).delegate_dfa_size_limit(1).backtrack_limit(0).case_insensitive(true).build().err()
     }));
-    if let Err(e) = r {
-        return Err(Fail::new("panic", "Ok or Err", format!("parse_tree / RegexBuilder PANIC({})", engine::panic_msg(e))));
+    match r {
+        Err(e) => return Err(Fail::new("panic", "Ok or Err", format!("parse_tree / RegexBuilder PANIC({})", engine::panic_msg(e)))),
+        // a parse error found through the builder refers to the caller's pattern as well
+        Ok(Some(Error::ParseError(pos, kind))) if pos > s.len() => {
+            return Err(Fail::new("error-position", format!("<= {} (RegexBuilder with case_insensitive(true))", s.len()), format!("{} ({:?})", pos, kind)));
+        }
+        Ok(_) => {}
     }
     Ok(info)
 }
@@ -200,7 +205,7 @@ fn mutate(corpus: &[String], bytes: &[u8]) -> String {
 pub fn nesting_inputs() -> Vec<String> {
     const OPENERS: &[(&str, &str)] = &[
         ("(", ")"), ("(?:", ")"), ("(?=", ")"), ("(?!", ")"), ("(?<=", ")"), ("(?<!", ")"), ("(?>", ")"), ("(?<n>", ")"), ("(?i:", ")"), ("(?(a)", ")"), ("(?(1)", ")"), ("(?(a)b|", ")"),
-        ("(?((", "))"), ("[", "]"), ("[a&&[", "]]"), ("(?#", ")"), ("a|(", ")"), ("(a", ")*"), ("(?x: (", "))"), ("\\(", ")"),
+        ("(?((", "))"), ("(?:", "){2}"), ("(?:", "){2}\\b"), ("(", "){2,2}"), ("[", "]"), ("[a&&[", "]]"), ("(?#", ")"), ("a|(", ")"), ("(a", ")*"), ("(?x: (", "))"), ("\\(", ")"),
     ];
     let depths = [31usize, 62, 63, 64, 65, 66, 130, 1000, 20_000, 120_000];
     let mut out = vec![];
@@ -490,7 +495,7 @@ fn run_stage(ctx: &RunCtx, o: &mut Outcome, stage: &str, param: u64, hashes: &mu
 
 pub fn run(ctx: &RunCtx) -> Outcome {
     let mut o = Outcome::default();
-    o.rule = format!("inputs: (a) every sequence of <= k tokens over a {}-token vocabulary of syntax fragments (unbalanced delimiters, multi-byte characters, huge numbers, every group opener / escape prefix), (b) proptest random longer token sequences, (c) every group opener (and pairs) nested 31..120000 deep with and without closers, (d) proptest character-level mutations (delete, duplicate, swap, token insertion, splice, truncate) of pattern literals found in the repository's tests and of valid patterns printed from the harness AST. Oracle per input, in a worker process with a counting allocator and RLIMIT_AS: Regex::new / Expr::parse_tree / RegexBuilder (tiny limits) return without panic (overflow checks on), Error Display works, ParseError position <= len, peak heap <= 256 MiB + 4 MiB*len, cumulative allocation <= 4 GiB + 64 MiB*len; a worker killed by a signal is re-run with tracing and the input in flight is the counterexample. Non-trivial = the input parsed, or failed at a position > 0. Distinct = distinct input strings (hash-partitioned over workers).", VOCAB.len());
+    o.rule = format!("inputs: (a) every sequence of <= k tokens over a {}-token vocabulary of syntax fragments (unbalanced delimiters, multi-byte characters, huge numbers, every group opener / escape prefix), (b) proptest random longer token sequences, (c) every group opener (and pairs) nested 31..120000 deep with and without closers (among them counted repeats `(?:..){{2}}` around plain and VM-interpreted cores, whose program must stay proportional to the pattern), (d) proptest character-level mutations (delete, duplicate, swap, token insertion, splice, truncate) of pattern literals found in the repository's tests and of valid patterns printed from the harness AST. Oracle per input, in a worker process with a counting allocator and RLIMIT_AS: Regex::new / Expr::parse_tree / RegexBuilder (tiny limits) return without panic (overflow checks on), Error Display works, ParseError position <= len (also through RegexBuilder with case_insensitive(true)), peak heap <= 256 MiB + 4 MiB*len, cumulative allocation <= 4 GiB + 64 MiB*len; a worker killed by a signal is re-run with tracing and the input in flight is the counterexample. Non-trivial = the input parsed, or failed at a position > 0. Distinct = distinct input strings (hash-partitioned over workers).", VOCAB.len());
     o.assumptions = vec!["wall-clock time is only a watchdog; time proportionality is checked through allocation volume".into()];
     o.required_classes = vec!["ok".into(), "ParseError:UnclosedOpenParen".into(), "CompileError:InvalidBackref".into()];
     let quick = ctx.quick();
